@@ -361,6 +361,7 @@ impl Component for HubC {
         if idx % 400 == 3 {
             ops.push(format!("par {} {}", rng.range(16, 96), if matches!(_tier, Tier::Quick) { 150 } else { 400 }));
             ops.push(format!("subfull {}", rng.pick(&[1usize, 1, 2, 8, 128])));
+            ops.push(format!("ctlunsub {} {}", rng.pick(&[0usize, 7, 8, 9, 95, 98, 990, 1]), rng.pick(&[2usize, 3, 5, 12, 25])));
             ops.push("len".into());
             return ops;
         }
@@ -598,6 +599,20 @@ impl Component for HubC {
                 }
                 format!("first:{first} last:{last}")
             }
+            ["ctlunsub", pre, own] => {
+                // one control connection subscribes `own` times through the REAL dispatcher after `pre` ids were
+                // handed out to others, unsubscribes every one of its ids (reads each reply), then an event is
+                // published: every unsubscribe of an owned live id must report removed:true and nothing may be
+                // delivered afterwards. Private hub, monitor only, constant reply.
+                let (Ok(pre), Ok(own)) = (pre.parse::<usize>(), own.parse::<usize>()) else { return "bad-op".into() };
+                if pre > 2000 || own == 0 || own > 64 {
+                    return "bad-op".into();
+                }
+                if let Some(desc) = unsubscribe_through_dispatcher(pre, own, mon) {
+                    mon.fail(P, "after-unsubscribe-via-dispatcher", desc);
+                }
+                "ok".into()
+            }
             ["subfull", cap] => {
                 // a control connection whose bounded push queue is completely full issues one more `subscribe`
                 // through the REAL dispatcher (the control socket's glue); a publish on that topic must still
@@ -694,6 +709,62 @@ impl Component for HubC {
 /// thread unsubscribes the victim in the middle of a fan-out.  Once `unsubscribe` has returned and
 /// the victim's channel has been drained, nothing more may ever arrive on it.  Uses a private hub,
 /// so the case's hub (and the model's state) is untouched.
+/// `ctlunsub`: see the op. Returns a description of the first violation.
+fn unsubscribe_through_dispatcher(pre: usize, own: usize, mon: &mut Mon) -> Option<String> {
+    use srtla_send::config::DynamicConfig;
+    use srtla_send::control::{SubscriptionContext, dispatch_async};
+    use srtla_send::stats::SharedStats;
+    let rt = tokio::runtime::Builder::new_current_thread().enable_time().build().expect("runtime");
+    let hub = SubscriptionHub::new();
+    let stats = SharedStats::new();
+    let cfg = DynamicConfig::new();
+    let res = rt.block_on(async {
+        // ids handed out to other connections first (they stay subscribed; their queues are never read)
+        let (otx, _orx) = mpsc::channel::<String>(4);
+        for _ in 0..pre {
+            hub.subscribe("priority.window", otx.clone()).await;
+        }
+        let (tx, mut rx) = mpsc::channel::<String>(256);
+        let mut owned: Vec<String> = Vec::new();
+        let mut ids: Vec<String> = Vec::new();
+        for k in 0..own {
+            let line = format!(r#"{{"jsonrpc":"2.0","id":{k},"method":"subscribe","params":{{"topic":"stats"}}}}"#);
+            let mut ctx = SubscriptionContext { hub: &hub, push_tx: tx.clone(), owned_ids: &mut owned };
+            let Some(r) = dispatch_async(&cfg, Some(&stats), None, Some(&mut ctx), &line).await else {
+                return Some(format!("subscribe #{k} got no response"));
+            };
+            let v: Value = serde_json::from_str(&r.to_json()).unwrap_or(Value::Null);
+            let Some(id) = v["result"]["subscription_id"].as_str() else {
+                return Some(format!("subscribe #{k} answered {}", r.to_json()));
+            };
+            ids.push(id.to_string());
+        }
+        // unsubscribe in an order that is not the allocation order
+        let mut order: Vec<usize> = (0..own).collect();
+        order.reverse();
+        order.rotate_left(own / 3);
+        for k in order {
+            let id = &ids[k];
+            let line = format!(r#"{{"jsonrpc":"2.0","id":"u{k}","method":"unsubscribe","params":{{"subscription_id":"{id}"}}}}"#);
+            let mut ctx = SubscriptionContext { hub: &hub, push_tx: tx.clone(), owned_ids: &mut owned };
+            let Some(r) = dispatch_async(&cfg, Some(&stats), None, Some(&mut ctx), &line).await else {
+                return Some(format!("unsubscribe of {id} got no response"));
+            };
+            let v: Value = serde_json::from_str(&r.to_json()).unwrap_or(Value::Null);
+            if v["result"]["removed"] != Value::Bool(true) {
+                return Some(format!("a connection that owns the live subscription {id} (its ids: {ids:?}) unsubscribed it through the dispatcher and was answered {}", r.to_json()));
+            }
+        }
+        hub.publish("stats", json!({ "after": "unsubscribe" })).await;
+        if let Ok(line) = rx.try_recv() {
+            return Some(format!("after every one of its subscriptions {ids:?} was unsubscribed (all replies read) the connection still received {line}"));
+        }
+        None
+    });
+    mon.count("unsubscribe-through-dispatcher");
+    res
+}
+
 /// `subfull`: see the op. Returns a description if a publish does not complete within 2 s.
 fn subscribe_on_full_queue(cap: usize, mon: &mut Mon) -> Option<String> {
     use srtla_send::config::DynamicConfig;
